@@ -24,6 +24,7 @@ impl Compiler {
             //@VACUITY
             r is Ok ==> (final(self).instructions@.len() == 0 && r->Ok_0.instructions@.len() > 0 && r->Ok_0.instructions@.last() == opcode_byte(OpCode::Halt)
                 && r->Ok_0.constants@ == final(self).constants@ && final(self).last_instruction == Some(OpCode::Halt)),
+            r is Ok ==> 0 <= final(self).locals_bound@ <= sym_max_size(final(self).symbols),
             // whatever happened, the symbol table is still usable (compile_ast resets it after a failure) and the names
             // the global scope had before are still there, in their slots
             sym_wf(final(self).symbols), sym_globals_kept(old(self).symbols, final(self).symbols),
@@ -58,7 +59,7 @@ impl Compiler {
             r is Ok ==> (r->Ok_0.instructions@.len() > 0 && r->Ok_0.instructions@.last() == opcode_byte(OpCode::Halt)),
             gen_inv(*final(self)),   // so the NEXT compile_ast call may assume it again
     {
-//@GHOST after="self.symbols.reset_to_global(globals_before);" proof { /* the failed program's flow is discarded */ self.height = Ghost(H::At(0)); }
+//@GHOST after="self.symbols.reset_to_global(globals_before);" proof { /* the failed program's flow is discarded */ self.height = Ghost(H::At(0)); self.locals_bound = Ghost(0int); }
 //@BODY file=compiler.rs fn=compile_ast impl=Compiler sig="pub fn compile_ast(&mut self, ast: &BlockStmt) -> Result<Bytecode, Error>" rules="R1;R4"
     }
 }
